@@ -46,7 +46,8 @@ where
     {
         let size: usize = infos.size();
 
-        let lvl_0: usize = LWEPlaintext::bytes_of(size);
+        // The plaintext buffer is followed by an aligned take: reserve it up to the scratch alignment.
+        let lvl_0: usize = LWEPlaintext::bytes_of(size).next_multiple_of(poulpy_hal::DEFAULTALIGN);
         let lvl_1: usize = self.vec_znx_normalize_tmp_bytes();
 
         lvl_0 + lvl_1
